@@ -23,6 +23,11 @@
 (*   128/192/256-bit key intermediate-value vectors (PT = 0), and the      *)
 (*   iterated test KEY_i = PT_{i-1} || KEY_{i-1}, PT_i = CT_{i-1}, I = 1..5*)
 (*   and I = 48 for each key size (also used by /repo/twofish/tests).      *)
+(*   The keys/plaintexts of the I = 48 events are the chain values of that *)
+(*   table (reproduced by an independent reference run; the published      *)
+(*   CT_48 closes the chain).  The paper's intermediate values (the 40     *)
+(*   expanded key words and the S-box key S for the three PT = 0 vectors)  *)
+(*   were checked once against KeySchedule(key).K / .S: all equal.         *)
 (***************************************************************************)
 EXTENDS Naturals, Sequences, Bitwise, TLC, Words, GF256
 
